@@ -113,6 +113,9 @@ let parse_op toks : op option =
   | ["IA"; sid] -> Some (IA (nd sid))
   | _ -> None
 
+(* the part of a segment after the op's own result: registry + lease-table snapshots *)
+let snap_part (sg : string) = match Str.bounded_split (Str.regexp_string " | ") sg 2 with
+  | [_; r] -> r | _ -> sg
 let split_segs_ref line = Str.split (Str.regexp_string " ; ") line
 
 (* ------------------------------------------------------------------ stage B glue (internal/ipoe component)
@@ -159,7 +162,7 @@ let rec run_ops variant (st : state) ops : (state * string list) list =
 let run_case_b variant line isegs =
   let parts = split_segs_ref line in
   let cfg = tokens (List.hd parts) in
-  let (st0, queue, _) = parse_cfg_b (List.tl cfg) in
+  let (st0, queue, declared) = parse_cfg_b (List.tl cfg) in
   let gates : (string, gate) Hashtbl.t = Hashtbl.create 8 in
   let gate k = match Hashtbl.find_opt gates k with Some g -> g | None -> let g = new_gate () in Hashtbl.add gates k g; g in
   let vq : string list ref = ref [] in
@@ -175,7 +178,9 @@ let run_case_b variant line isegs =
     let f = tokens otxt in
     if f <> [] then begin
       (* returns (tag, model ops, aaa count, show_rec, subscriber) or skip *)
+      let known = match f with _ :: k :: _ when List.hd f <> "BC" -> List.mem k declared | _ -> true in
       let plan : (string * (op * string) list * int * (string * gate) option) option =
+        if not known then None else
         match f with
         | "BC" :: rest ->
           let q = if rest = ["rev"] then List.rev !vq else !vq in
@@ -239,7 +244,10 @@ let run_case_b variant line isegs =
          let cands = run_ops variant !st ops in
          let want = if !idx < Array.length isegs then Some isegs.(!idx) else None in
          let pick = match want with
-           | Some w -> (match List.find_opt (fun c -> render c = w) cands with Some c -> c | None -> List.hd cands)
+           | Some w -> (match List.find_opt (fun c -> render c = w) cands with
+               | Some c -> c
+               | None -> (match List.find_opt (fun c -> snap_part (render c) = snap_part w) cands with
+                   | Some c -> c | None -> List.hd cands))
            | None -> List.hd cands in
          res := render pick :: !res; st := fst pick);
       incr idx
@@ -289,7 +297,9 @@ let () =
              let want = if !k < Array.length isegs then Some isegs.(!k) else None in
              let pick = match want with
                | Some w -> (match List.find_opt (fun (s', ot) -> seg s' ot = w) cands with
-                            | Some c -> c | None -> List.hd cands)
+                            | Some c -> c
+                            | None -> (match List.find_opt (fun (s', ot) -> snap_part (seg s' ot) = snap_part w) cands with
+                                | Some c -> c | None -> List.hd cands))
                | None -> List.hd cands in
              let (s', ot) = pick in
              res := seg s' ot :: !res; st := s');
